@@ -1482,37 +1482,67 @@ package anytype
 //@ func (*object).SetTF [C11 C19]
 //@   decreases len(tf)
 //@   requires invO(ego) && okArg(value)
-//@   assigns  tree
+//@   let key := tfSeg(tf)
+//@   assigns  pathO(ego, tf)
 //@   panics_iff !tfWFO(tf) || !supp(value)
 //@   ensures  fluent: result == ego.ptr && ego.ptr == old(ego.ptr) [C19 C11]
-//@   ensures  alive: invO(ego)
+//@   ensures  alive: invO(ego) && mapid(ego.val) == old(mapid(ego.val))
+//@   ensures  readback: tfDefO(ego, tf) && getWraps(tfValO(ego, tf), value)
+//@   ensures  has-key: has(ego.val, key)
+//@   ensures  other-keys: forall k str :: {has(ego.val, k)} {ego.val[k]} k != key ==> has(ego.val, k) == old(has(ego.val, k)) && ego.val[k] == old(ego.val[k])
+//@   ensures  reused: !tfLeaf(tf) && old(has(ego.val, key)) && (tfNextDot(tf) ? old(isVObj(ego.val[key])) : old(isVList(ego.val[key]))) ==> ego.val[key] == old(ego.val[key])
 
 //@ func (*list).SetTF [C11 C19]
 //@   decreases len(tf)
 //@   requires invL(ego) && okArg(value)
-//@   assigns  tree
+//@   let n := len(ego.val)
+//@   let d := parseIdx(tfSeg(tf))
+//@   assigns  pathL(ego, tf)
 //@   panics_iff !tfWFL(tf) || !supp(value)
 //@   ensures  fluent: result == ego.ptr && ego.ptr == old(ego.ptr) [C19 C11]
 //@   ensures  alive: invL(ego)
+//@   ensures  readback: tfDefL(ego, tf) && getWraps(tfValL(ego, tf), value)
+//@   ensures  len: len(ego.val) == ((d < n) ? n : d + 1)
+//@   ensures  others: forall j int :: {ego.val[j]} 0 <= j && j < n && j != d ==> ego.val[j] == old(ego.val[j])
+//@   ensures  padding: forall j int :: {ego.val[j]} n <= j && j < d ==> ego.val[j] == WNil
+//@   ensures  reused: !tfLeaf(tf) && d < n && (tfNextDot(tf) ? old(isVObj(ego.val[d])) : old(isVList(ego.val[d]))) ==> ego.val[d] == old(ego.val[d])
 //@   loop 1,2,3
 //@     assigns list(ego)
 //@     invariant range: 0 <= i && i <= index - count
-//@     invariant grown: invL(ego) && len(ego.val) == count + i && ego.ptr == old(ego.ptr)
+//@     invariant grown: invL(ego) && len(ego.val) == count + i && ego.ptr == old(ego.ptr) && count == n
+//@     invariant kept: forall j int :: {ego.val[j]} 0 <= j && j < n ==> ego.val[j] == old(ego.val[j])
+//@     invariant padded: forall j int :: {ego.val[j]} n <= j && j < n + i ==> ego.val[j] == WNil
 //@     decreases index - count - i
 
+// UnsetTF: only containers on the path are written (frame pathO / pathL), an inner container of the
+// path keeps all its entries, the last one loses exactly the addressed field / element; a panic (possible
+// only on a path that does not resolve) leaves the whole heap as it was.
 //@ func (*object).UnsetTF [C11 C19]
 //@   decreases len(tf)
 //@   requires invO(ego)
-//@   assigns  tree
-//@   panics_if true
+//@   assigns  pathO(ego, tf)
+//@   panics_if !tfDefO(ego, tf)
+//@   on_panic unchanged: listsUnchanged(H0) && objsUnchanged(H0)
 //@   ensures  fluent: result == ego.ptr && ego.ptr == old(ego.ptr) [C19 C11]
+//@   ensures  alive: invO(ego) && mapid(ego.val) == old(mapid(ego.val))
+//@   ensures  inner-keys: !tfLeaf(tf) ==> (forall k str :: {has(ego.val, k)} has(ego.val, k) == old(has(ego.val, k)))
+//@   ensures  leaf-keys: tfLeaf(tf) ==> (forall k str :: {has(ego.val, k)} has(ego.val, k) == (old(has(ego.val, k)) && k != tfSeg(tf)))
+//@   ensures  values: forall k str :: {ego.val[k]} ego.val[k] == old(ego.val[k])
 
 //@ func (*list).UnsetTF [C11 C19]
 //@   decreases len(tf)
 //@   requires invL(ego)
-//@   assigns  tree
-//@   panics_if true
+//@   let n := len(ego.val)
+//@   let d := parseIdx(tfSeg(tf))
+//@   assigns  pathL(ego, tf)
+//@   panics_if !tfDefL(ego, tf)
+//@   on_panic unchanged: listsUnchanged(H0) && objsUnchanged(H0)
 //@   ensures  fluent: result == ego.ptr && ego.ptr == old(ego.ptr) [C19 C11]
+//@   ensures  alive: invL(ego)
+//@   ensures  inner: !tfLeaf(tf) ==> len(ego.val) == n && (forall j int :: {ego.val[j]} 0 <= j && j < n ==> ego.val[j] == old(ego.val[j]))
+//@   ensures  leaf-len: tfLeaf(tf) ==> len(ego.val) == n - 1
+//@   ensures  leaf-before: tfLeaf(tf) ==> (forall j int :: 0 <= j && j < d ==> ego.val[j] == old(ego.val[j]))
+//@   ensures  leaf-after: tfLeaf(tf) ==> (forall j int :: d <= j && j < n - 1 ==> ego.val[j] == old(ego.val[j+1]))
 
 // ---------------------------------------------------------------------------
 // Not under contract (their callbacks mutate containers the callee's frame would have to name):
